@@ -831,3 +831,45 @@ func famDemoteElect(t *testing.T, seed int64, steps int) *Cluster {
 	c.converge(600 * time.Millisecond)
 	return c
 }
+
+// famBarrierRace: a Barrier issued while the leader's FSM goroutine is inside Apply of an earlier committed
+// command (slow FSM), with nothing else queued: it may only succeed after that command has been applied (C08).
+func famBarrierRace(t *testing.T, seed int64, steps int) *Cluster {
+	opt := DefaultOptions(seed)
+	opt.Family = "barrierrace"
+	opt.BatchFSM = seed%3 == 1
+	opt.BatchApplyCh = seed%2 == 1
+	c := NewCluster(t, opt)
+	c.Bootstrap()
+	c.StartAll()
+	L := c.WaitLeader(2 * time.Second)
+	if L == "" {
+		return c
+	}
+	for i := 0; i < 1+int(seed%3); i++ {
+		c.Apply(L, 0)
+		c.Settle("client")
+	}
+	c.Drive(100*time.Millisecond, nil, nil)
+	if c.Leader() != L {
+		c.converge(500 * time.Millisecond)
+		return c
+	}
+	ln := c.byID[L]
+	ln.FSM.SetGated(true)
+	c.Apply(L, 0)
+	c.Settle("client")
+	c.Drive(200*time.Millisecond, nil, func() bool { return ln.FSM.Waiting() > 0 })
+	// the command is committed and inside FSM.Apply; now the barrier
+	for i := 0; i < 1+int(seed%2); i++ {
+		c.Barrier(L, 0)
+		c.Settle("client")
+		c.Drive(80*time.Millisecond, nil, nil)
+	}
+	c.Drive(200*time.Millisecond, nil, nil)
+	ln.FSM.SetGated(false)
+	c.Settle("fsm")
+	c.Drive(200*time.Millisecond, nil, nil)
+	c.converge(400 * time.Millisecond)
+	return c
+}
